@@ -158,6 +158,7 @@ def run_check(tier, seed):
         mut_specs = [
             ('logic_base', [['load', 'logic_base', None]], [['append_item', 'logic_base', ax(0)]], 'changed file re-read'),
             ('logic', [['load', 'logic', None]], [['append_item', 'logic_base', ax(1)]], 'direct import changed between two loads'),
+            ('logic_base', [['load', 'logic_base', None]], [['append_item', 'logic_base', ax(8), 'older']], 'file replaced by a different, older-dated version'),
             ('nat', [['load', 'nat', None]], [['append_item', 'logic_base', ax(2)]], 'transitive import changed between two loads'),
             ('set', [['load', 'set', None]], [['append_item', 'nat', ax(3)]], 'import in the middle of the chain changed'),
             ('nat', [['load', 'function', None]], [['append_item', 'logic', ax(4)]], 'import changed after it was cached through another theory'),
@@ -165,9 +166,10 @@ def run_check(tier, seed):
             ('function', [['load', 'function', None], ['load', 'logic', None]], [['append_item', 'logic', ax(6)], ['append_item', 'logic_base', ax(7)]],
              'two imports changed'),
             ('nat', [['load', 'nat', None]], [['touch', 'logic_base']], 'import touched only'),
+            ('nat', [['load', 'nat', None]], [['append_item', 'logic', ax(9), 'older']], 'import replaced by a different, older-dated version'),
         ]
         if tier == 'quick':
-            mut_specs = mut_specs[:2] + r.sample(mut_specs[2:], 3)
+            mut_specs = mut_specs[:3] + r.sample(mut_specs[3:], 3)
         mut_dirs, mut_jobs = [], []
         for target, pre, change, descr in mut_specs:
             pair = []
